@@ -502,6 +502,28 @@ def reproduce_by_trace(ctx, binp, all_events, bad_events, extra_env=None):
     return confirmed
 
 
+def settle_whitebox(ctx, confirmed, wb_ops, escalate=None, label=""):
+    """White-box events (calls of unexported functions, toy instantiations) are a way to FIND interesting parameters; what an
+    unexported function means is the implementation's business, so their rejections never decide alone.  Confirmed
+    rejections at the API the property names are violations (the white-box ones are reported with them).  White-box
+    rejections alone: `escalate(wb_events)` runs a directed campaign through the exported API (it returns confirmed
+    API-level rejections); if that stays clean the white-box leg is recorded as skipped, not as a violation."""
+    is_wb = wb_ops if callable(wb_ops) else (lambda e: e["op"] in wb_ops)
+    api = [e for e in confirmed if not is_wb(e)]
+    wb = [e for e in confirmed if is_wb(e)]
+    if wb and not api and escalate:
+        api = escalate(wb) or []
+    if api:
+        return api + wb
+    if wb:
+        msg = ("white-box deviation without a counterpart at the exported API (%s%d events, first: %s): an unexported function "
+               "changed its meaning, or the deviation is unreachable through the API; the white-box leg is skipped, not a verdict"
+               % (label + ": " if label else "", len(wb), json.dumps({k: v for k, v in wb[0].items() if k in ("op", "in")})[:300]))
+        ctx.skipped.append(msg)
+        ctx.log("SKIPPED: " + msg)
+    return []
+
+
 def reproduce_concurrent(ctx, binp, all_events, bad_events, module, extra_env=None, tries=3, chunk=None, stateful=False):
     """Rejected events of a concurrent phase: which call is disturbed depends on the schedule, so the same input need not
     deviate twice.  The whole trace is run again (up to `tries` times) and judged by TLC again; the rejections are
